@@ -34,13 +34,18 @@ CHECKS = {
             "(MC_Lang).", "6 C04, 13.2"),
     "C05": ("Every strict prefix of implementation-produced encodings of every pool type read through every reader kind "
             "(buffer, pedantic, stringstream, ifstream, fd, BoundedReader over each): TrCodec.tla C05RC requires a non-ok "
-            "status for each, incl. an FdReader on a pipe that delivers short reads, and tables written with one definition "
+            "status for each, incl. an FdReader on a pipe that delivers short reads and on a descriptor whose system calls are "
+            "interrupted (EINTR) and shortened; block transfers reach the reader classes with the element width the codec used, "
+            "and 16 encodings are cut at every prefix through Deserializer<BufferReader/PedanticBufferReader/StreamReader> "
+            "with no executor layer in between (FormsCutFails); tables written with one definition "
             "of the TLC-emitted version pool, cut at every position and read with another definition (cuts inside skipped "
             "entries and padding); W2/W2f (every prefix of Enc is "
             "rejected as truncated) and MC_Session.NoGhostSuccess (cut after any byte) model-checked.", "6 C05"),
     "C06": ("GetSize vs bytes emitted for every pool type/value, and every capacity 0..GetSize+2 on BufferWriter, "
             "PedanticBufferWriter, ConstexprBufferWriter and BoundedWriter over each with guard bytes; table entry frames "
-            "re-parsed by Dec; W4 model-checked.", "6 C06"),
+            "re-parsed by Dec (incl. handles of every policy as entries and a handle-bearing table nested in an entry); 16 "
+            "encodings written at every capacity below their length through the checked writer classes directly "
+            "(FormsCapFails); W4 model-checked.", "6 C06"),
     "C10": ("For every generated value a fault is injected at EVERY primitive call position of Read and Write with every error "
             "code (the usual ones plus others in rotation; all 18 for handle transfers); TrCodec.tla C10Runs requires the code back verbatim, no call after the failure, emitted bytes a prefix of "
             "the fault-free output and nothing written when Prepare fails. The same at the RPC layer: a fault at every "
@@ -60,7 +65,8 @@ CHECKS = {
             "(every limit, index and request size in 0..2^64-1).", "6 C16, 13.2"),
     "C17": ("The same TLC-generated and random call sequences are executed directly on every library reader and writer "
             "(and Bounded over each) with element widths 1/2/4/8; TrIO.tla requires each call to be the step of the "
-            "IO.tla contract automaton up to and including the first failing call (FdReader also over a bursty pipe; "
+            "IO.tla contract automaton up to and including the first failing call (FdReader also over a bursty pipe, FdReader / "
+            "FdWriter over descriptors whose read()/write() fail with EINTR and transfer short counts; "
             "StreamWriter over a stream that takes only cap bytes -> StreamError, FdWriter on /dev/full -> IOError), and "
             "size()/capacity()/remaining()/empty() to agree with the automaton after every call; "
             "MC_IO checks OneContract on the product of all kinds; 67 generated constexpr values are serialised in "
@@ -86,7 +92,8 @@ CHECKS = {
             "(Result<E,void>) as a machine of its own; converting assignment from Optional<U>; GetErrorMessage "
             "defined and distinct for every ErrorStatus.", "6 C13"),
     "C15": ("(a) W events of every handle-bearing pool type: handles pushed exactly once in the encounter order of "
-            "Wire.tla's EncR, the returned reference (incl. -1, 2^31, 2^63-1, negatives) encoded after the type tag; reads "
+            "Wire.tla's EncR, the returned reference (incl. -1, 2^31, 2^63-1, negatives) encoded after the type tag (8-bit and "
+            "16-bit tags, alone, in containers, as table entries and in nested tables); reads "
             "with corrupted tags/references/unresolvable references judged by Dec (UnexpectedHandleType, "
             "InvalidHandleReference verbatim). (b) Lifetimes.tla UniqueHandle machine: invariants HClosedOnce/HUnique "
             "model-checked, TLC-generated and random ownership histories replayed on UniqueHandle<CountingPolicy>; TrObj.tla "
@@ -105,11 +112,11 @@ CHECKS = {
             "status, value, consumed length and error category are compared with Dec of Wire.tla (TrCodec.tla); wrong "
             "hashes are a family (0, all ones, +-1, halves / single bytes cleared, top bit, reversed).", "6 C08"),
     "C09": ("Fungible.tla: DocFungible (the documented fungible pairs as a relation on schemas) and Norm (wire-level "
-            "content); the compiler evaluates IsFungible and Protocol admission on all ordered pairs of a 131-type grammar "
+            "content); the compiler evaluates IsFungible and Protocol admission on all ordered pairs of a 133-type grammar "
             "(every sequence spelling - vector, std::array, C array, tuple, structure member - over every element class) "
             "(FUNG event): reflexive, symmetric, DocFungible => true, admits = value; every pair reported fungible is "
-            "cross-decoded on boundary values and judged by Dec of Wire.tla (accept when the counts fit, corresponding "
-            "value, identical re-encoding).", "6 C09"),
+            "cross-decoded on boundary values and judged by Enc / Dec of Wire.tla (an encodable value is written, accepted "
+            "when the counts fit, corresponding value, identical re-encoding).", "6 C09"),
     "C14": ("Rpc.tla: request = selector (SipHash-2-4 of the method name keyed by the interface hash, or explicit) followed by "
             "the argument tuple; Dispatch(I, bytes) says which handler must run with which arguments, or which error with no "
             "handler and no reply. MC_Rpc model-checks framing/one-handler/return invariants over all call sequences. "
@@ -122,7 +129,8 @@ CHECKS = {
             "caller and dispatcher also run as two threads over real pipes (FdWriter/FdReader).", "6 C14"),
     "C19": ("Threads.tla: per-thread, per-(T,Slot) storage; MC_Threads explores all interleavings of 2-3 threads running "
             "ThreadLocal programs (Isolation, ScheduleIndependent) and emits the schedules, which real std::threads replay in "
-            "lock step; free-running 4-16 threads mix ThreadLocal operations on shared slot types with serializer round "
+            "lock step under injective slot renamings over nine slots (int / long under every slot naming, std::string, "
+            "std::vector, std::unique_ptr values); free-running 4-16 threads mix ThreadLocal operations on shared slot types with serializer round "
             "trips (12 encodings, three Serializer forms), RPC connections and reader/writer call sequences with thread-specific "
             "padding values on their own objects, caller/dispatcher thread pairs over real pipes, and descriptor-ownership "
             "histories of FdReader/FdWriter (TrObj.tla FFold: no descriptor closed twice); TrThreads.tla validates every observation against the model and every in-thread "
